@@ -32,5 +32,5 @@ git apply -R $S/patch.diff && { rundemo; echo "demo rc without patch: $?"; }; gi
 git status --short | grep -v '^?? seeded/' | head -5
 for c in "$@"; do
   echo "== check $c against patched tree"
-  (cd /verif && VERIF_REPO=$WT ./check $c > /tmp/seedtest-$P-$c.out 2>&1; grep -E "^VIOLATION" /tmp/seedtest-$P-$c.out | cut -c1-300 | head -6; grep -cE "^VIOLATION" /tmp/seedtest-$P-$c.out; grep -E "MACHINERY|quick:|DRIFT|^\.\.\." /tmp/seedtest-$P-$c.out | cut -c1-300 | head -6; rm -f /tmp/seedtest-$P-$c.out)
+  (cd ${VERIF_CHECK_DIR:-/verif} && VERIF_REPO=$WT ./check $c > /tmp/seedtest-$P-$c.out 2>&1; grep -E "^VIOLATION" /tmp/seedtest-$P-$c.out | cut -c1-300 | head -6; grep -cE "^VIOLATION" /tmp/seedtest-$P-$c.out; grep -E "MACHINERY|quick:|DRIFT|^\.\.\." /tmp/seedtest-$P-$c.out | cut -c1-300 | head -6; rm -f /tmp/seedtest-$P-$c.out)
 done
